@@ -27,4 +27,11 @@ OUT="$(CARGO_TARGET_DIR=$ISO/target VERIF_ROOT=$ISO/verif ./check "$ID" "$TIER" 
 echo "$OUT" | grep -E "^(violation|VIOLATION|KNOWN-FINDING|INCONCLUSIVE|HELD|harness error|C[0-9]+ )" | cut -c1-300 | head -20
 echo "exit=$RC"
 if [ $RC -eq 2 ]; then tail -20 $ISO/target/build-*.log 2>/dev/null | tail -20; fi
+# REPLAY=1: every replay file the check named is replayed against the changed tree; it has to reproduce (exit 1)
+if [ "${REPLAY:-0}" = 1 ]; then
+  for f in $(echo "$OUT" | grep -oE "^VIOLATION property=$ID replay=\S+" | sed 's/.*replay=//'); do
+    R="$(CARGO_TARGET_DIR=$ISO/target VERIF_ROOT=$ISO/verif ./check "$ID" --replay "$f" 2>&1)"; RRC=$?
+    echo "replay $(basename "$f") exit=$RRC $(echo "$R" | grep -E "^(VIOLATION|HELD|INCONCLUSIVE|harness error)" | head -1 | cut -c1-120)"
+  done
+fi
 cd /repo; $G worktree remove --force $ISO/repo; rm -rf $ISO/verif
